@@ -98,6 +98,18 @@ def units():
                       "tier": "quick" if (ch == 1 and sub in ("IMA_ADPCM", "GSM610", "PCM_16")) else "thorough", "pre_gi_flags": ["--remove-function-body", "psf_log_printf"],
                       "kind": "enumerated(encoding=%s, channels=%d); audio bytes L and frames symbolic" % (sub, ch),
                       "trusted": ["codec initialisers replaced by call-counting stand-ins (block codecs leave bytewidth 0 as the real ones do)", "harness virtual-I/O callbacks"]})
+    # WAV length bookkeeping (DFCC): header writer and tailer
+    for bw in (0, 2, 3):
+        for ch in (1, 2):
+            for fn, entry, props in (("wav_write_header", "h_wav_write_header", ["C11", "C04"]), ("wav_write_tailer", "h_wav_write_tailer", ["C08", "C04"])):
+                U.append({"name": "wav.%s.bw%d.ch%d" % (fn, bw, ch), "props": props, "harness": "wav_hdr.harness.c", "entry": entry, "enforce": fn,
+                          "function": "wav.c:" + fn, "defines": ["-DCH=%d" % ch, "-DBW=%d" % bw], "timeout": 600, "cbmc_flags": ["--object-bits", "9"],
+                          "replace": ["psf_ftell", "psf_get_filelen", "psf_fseek", "psf_fwrite", "wav_write_fmt_chunk", "wavex_write_fmt_chunk", "wavlike_write_strings",
+                                      "wavlike_write_peak_chunk", "wavlike_write_bext_chunk", "wavlike_write_cart_chunk", "wavlike_write_custom_chunks"],
+                          "tier": "quick" if (ch == 2 or bw == 0) else "thorough",
+                          "kind": "enumerated(sample width=%d (0: block codec), channels=%d)" % (bw, ch),
+                          "trusted": ["E1 model of psf_binheader_writef (advances the header cache index; header bytes not modelled)",
+                                      "frame contracts of the chunk writers of wavlike.c", "no cue / instrument metadata (assumption in the handle predicate)"]})
     return U
 
 
